@@ -24,7 +24,12 @@ type Violation struct {
 // schedules (and data choices) of Body.
 type Explorer struct {
 	Name     string
-	Bound    int
+	Bound    int // preemption bound
+	// FreeBound bounds the non-default choices at points where switching costs
+	// no preemption (running thread blocked or yielding, time passing, data
+	// choices). Poll loops make the space of such choices cyclic, so they need
+	// their own bound for the search tree to be finite. <0: unbounded.
+	FreeBound int
 	Cfg      Config
 	Body     func()
 	// Check is the oracle, evaluated on every execution. It returns an
@@ -39,6 +44,7 @@ type Explorer struct {
 	Execs      int64
 	Transitions int64
 	MaxPoints  int
+	Longest    []int // prefix of the longest execution seen
 	States     map[uint64]struct{}
 	Outcomes   map[string]int64
 	Viols      []*Violation
@@ -156,6 +162,7 @@ func (x *Explorer) explore(prefix []int, depth int) {
 	}
 	if len(e.Points) > x.MaxPoints {
 		x.MaxPoints = len(e.Points)
+		x.Longest = append([]int(nil), prefix...)
 	}
 	switch e.Outcome {
 	case OutDiverged, OutStuck:
@@ -196,15 +203,17 @@ func (x *Explorer) explore(prefix []int, depth int) {
 			}
 		}
 	}
-	pre := 0
+	pre, free := 0, 0
 	for i := 0; i < len(e.Points); i++ {
 		p := &e.Points[i]
 		if i >= len(prefix) && p.Alts > 1 {
-			cost := pre
+			cost, fcost := pre, free
 			if !p.Free {
 				cost++
+			} else {
+				fcost++
 			}
-			if cost <= x.Bound {
+			if cost <= x.Bound && (x.FreeBound < 0 || fcost <= x.FreeBound) {
 				for alt := 1; alt < p.Alts; alt++ {
 					if depth == 0 && x.NShards > 1 {
 						k := x.rootKid
@@ -223,8 +232,12 @@ func (x *Explorer) explore(prefix []int, depth int) {
 				}
 			}
 		}
-		if !p.Free && e.Choices[i] != 0 {
-			pre++
+		if e.Choices[i] != 0 {
+			if p.Free {
+				free++
+			} else {
+				pre++
+			}
 		}
 	}
 }
